@@ -139,6 +139,13 @@ func (its *WiredDatatype) checkOptionAndError(ppp *model.PushPullPack) errors.Or
 		}
 		return errors.ClientSync.New(its.L(), fmt.Sprintf("%s: error response without an error operation", its.Key))
 	} else if ppp.GetPushPullPackOption().HasSubscribeBit() {
+		if its.state != model.StateOfDatatype_DUE_TO_SUBSCRIBE && its.state != model.StateOfDatatype_DUE_TO_SUBSCRIBE_CREATE {
+			// The subscription has been answered before (two requests were in flight, or the answer was
+			// delivered twice). Resetting again would throw away what happened since; the pack is
+			// handled like any other: only operations not applied yet are taken from it.
+			ppp.Option = uint32(model.PushPullBitNormal)
+			return nil
+		}
 		if len(ppp.GetOperations()) == 0 {
 			return errors.DatatypeSubscribe.New(its.L(), "subscribe without SnapshotOp")
 		}
